@@ -3,6 +3,7 @@ mod c12;
 mod c15;
 mod c16;
 mod c18;
+mod c19;
 mod dist;
 
 fn main() {
@@ -35,6 +36,7 @@ fn main() {
                 "C12" => c12::record(seed, n, out, args.get(6).and_then(|s| s.parse().ok()).unwrap_or(16)),
                 "C15" => c15::record(seed, n, out),
                 "C18" => c18::record(&args[6], seed, n, out),
+                "C19" => c19::record(seed, n, out, args.get(6).and_then(|s| s.parse().ok()).unwrap_or(2000)),
                 _ => {
                     let _ = (seed, n, out);
                     eprintln!("no recorder for {}", sub);
